@@ -79,7 +79,7 @@ def grep_forbidden():
     return hits
 
 
-def regenerate_and_build(pid, log):
+def regenerate_and_build(pid, log, tier="quick"):
     """Returns dict: generated (extract output), driver_ok, props_ok, build_log, theorems {name: axioms|None}"""
     res = {"driver_ok": False, "props_ok": False, "build_log": "", "theorems": {}, "generated": {},
            "forbidden": []}
@@ -127,6 +127,17 @@ def regenerate_and_build(pid, log):
         for n in names:
             res["theorems"][n] = None
     res["forbidden"] = grep_forbidden()
+    # thorough tier: the toolchain's independent re-checker replays the compiled module in a fresh kernel
+    res["leanchecker"] = None
+    if tier == "thorough" and res["props_ok"]:
+        try:
+            rc, out = sh(["lake", "env", "leanchecker", f"Msmart.Props.{pid}"], cwd=LEAN, timeout=1800)
+            res["leanchecker"] = "ok" if rc == 0 else ("failed: " + out[-500:])
+            if rc != 0:
+                res["props_ok"] = False
+                res["build_log"] += "\nleanchecker: " + out[-2000:]
+        except subprocess.TimeoutExpired:
+            res["leanchecker"] = "timeout (not counted)"
     return res
 
 
@@ -328,6 +339,7 @@ class Ctx:
                 "streams": self.streams,
                 "distribution": self.dist,
                 "disagreements": len(self.disagreements),
+                "leanchecker": b.get("leanchecker"),
                 "source_drift": (b.get("generated") or {}).get("source_drift"),
                 "generated_changed": (b.get("generated") or {}).get("changed"),
                 "driver_calls": self.driver.calls if self.driver else 0,
